@@ -494,7 +494,7 @@ def c01g(ck, prog):
               "" if ok else "%s appends a child without having looked for an existing matchable child, and append_child accepts a second `:param` child: the search only ever descends into the first one, so with "
               "`\"/users/:id\".GET(..)` followed by `\"/users\".By(Ohkami::new(\"/:user/posts\".GET(..)))` GET /users/42/posts answers 404 (and 200 when the two are registered in the other order)" % g.key,
               how="dominated by `machable_child_mut(pattern)` == None" if looked else "append_child guards its Param arm")
-    ck.floor(R, "append_child call sites", n, 3)
+    ck.floor(R, "append_child call sites", n, 1)
     # the look-up treats every param child as matching a param pattern (whatever the parameter is called)
     mc = prog.one(r"^ohkami::router::base::Node::machable_child_mut$")
     cmpc = [c for g in [mc] + prog.descendants(mc.key) for c in g.calls() if c.callee in prog.fns and "Pattern" in (c.callee or "")]
